@@ -9,7 +9,12 @@ from concurrent.futures import ThreadPoolExecutor
 
 import harness as H
 
-BUILDS = ["default", "raw", "sync", "both"]
+# reference: default features in the shipped (plain) profile; compared with the three other feature sets in the
+# same profile and with the overflow-/assertion-checked build of the default features
+BUILDS = ["plain", "raw-plain", "sync-plain", "both-plain", "default"]
+REF = BUILDS[0]
+FEATURES = {"plain": "default", "default": "default", "raw-plain": "raw_strains", "sync-plain": "sync", "both-plain": "raw_strains,sync",
+            "raw": "raw_strains", "sync": "sync", "both": "raw_strains,sync"}
 
 
 def _trace(binary, sd, a, b, tier, timeout=240):
@@ -136,7 +141,7 @@ def run(tier):
         by_build[b].update(recs)
         if summary:
             ops_total[b] += summary["ops"]
-            want = {"default": "default", "raw": "raw_strains", "sync": "sync", "both": "raw_strains,sync"}[b]
+            want = FEATURES[b]
             if summary["features"] != want:
                 raise H.HarnessError(f"binary for build {b} reports features {summary['features']}")
     violations = []
@@ -155,13 +160,13 @@ def run(tier):
                 "key": f"C10/build-{b}-does-not-finish",
                 "detail": f"build {b} on runs {a}..{e}: {err}",
                 "case": None,
-                "builds": [b, "default"],
+                "builds": [b, REF],
                 "process_level": True,
             }
         )
     sigs = set()
     mismatched = {}
-    for run_i, ref in by_build["default"].items():
+    for run_i, ref in by_build[REF].items():
         sigs.add((tuple(ref["k"]), ref["objs"] // 8))
         for b in BUILDS[1:]:
             other = by_build[b].get(run_i)
@@ -171,18 +176,18 @@ def run(tier):
                 idx = next(i for i, (x, y) in enumerate(zip(ref["d"], other["d"])) if x != y)
                 kind = ref["k"][idx].split(":")[0]
                 mode = ["osu", "taiko", "catch", "mania"][int(ref["k"][idx].split(":")[1])]
-                key = f"C10/default-vs-{b}/{kind}/{mode}"
+                key = f"C10/{REF}-vs-{b}/{kind}/{mode}"
                 mismatched.setdefault(key, []).append((run_i, b))
     for key, lst in sorted(mismatched.items()):
         run_i, b = lst[0]
         g = subprocess.run(
-            [H.sim_bin("default"), "trace", "--seed", str(sd), "--from", str(run_i), "--to", str(run_i + 1), "--tier", tier, "--gen-only"],
+            [H.sim_bin(REF), "trace", "--seed", str(sd), "--from", str(run_i), "--to", str(run_i + 1), "--tier", tier, "--gen-only"],
             capture_output=True,
             text=True,
         )
         case = json.loads(g.stdout.splitlines()[0])["case"]
-        small, used = minimise(case, "default", b)
-        f1 = _replay_case(H.sim_bin("default"), small, full=True)
+        small, used = minimise(case, REF, b)
+        f1 = _replay_case(H.sim_bin(REF), small, full=True)
         f2 = _replay_case(H.sim_bin(b), small, full=True)
         violations.append(
             {
@@ -191,9 +196,9 @@ def run(tier):
                 "seed": sd,
                 "run": run_i,
                 "key": key,
-                "detail": f"{len(lst)} runs disagree; minimised: default -> {f1[0][:300]} | {b} -> {f2[0][:300]}",
+                "detail": f"{len(lst)} runs disagree; minimised: {REF} -> {f1[0][:300]} | {b} -> {f2[0][:300]}",
                 "case": small,
-                "builds": ["default", b],
+                "builds": [REF, b],
                 "minimise_steps": used,
             }
         )
@@ -218,36 +223,37 @@ def run(tier):
     wall = time.time() - t0
     evaluations = sum(len(by_build[b]) for b in BUILDS)
     samples = []
-    for run_i in sorted(by_build["default"])[:2]:
-        samples.append({"run": run_i, "ops": by_build["default"][run_i]["k"], "objects": by_build["default"][run_i]["objs"],
-                        "digests_default": by_build["default"][run_i]["d"][:3]})
+    for run_i in sorted(by_build[REF])[:2]:
+        samples.append({"run": run_i, "ops": by_build[REF][run_i]["k"], "objects": by_build[REF][run_i]["objs"],
+                        "digests_reference_build": by_build[REF][run_i]["d"][:3]})
     cov = {
         "evaluations": evaluations,
         "distinct_nontrivial": len(sigs),
         "rule": "case = (map with emphasis on taiko/converts, bursts separated by breaks of 0.9 s - 57 min, long-gap maps, real-map "
         "windows; 3-7 ops out of calculate / strains / prefix / performance / gradual difficulty with thread hand-over points / "
         "gradual performance / convert, with seeded settings). The same (seed, run) is executed by four binaries built with "
-        "features {}, {raw_strains}, {sync}, {raw_strains,sync}; logs must be identical per library call. evaluations = runs x builds; "
+        "features {}, {raw_strains}, {sync}, {raw_strains,sync} in the shipped profile (no debug assertions, no overflow checks) plus the "
+        "checked build of the default features; logs must be identical per library call. evaluations = runs x builds; "
         "distinct = distinct (op-kind sequence, size class) among the runs.",
         "samples": samples,
-        "seeded_runs_per_build": len(by_build["default"]),
+        "seeded_runs_per_build": len(by_build[REF]),
         "library_calls_per_build": ops_total,
         "runs_per_hour": int(evaluations / max(wall, 1e-6) * 3600),
         "seeds": {"VERIF_SEED": sd, "runs": f"0..{runs}"},
         "simulated_time": "not applicable: the system under test has no timers or deadlines",
-        "faults_fired": {"build_configuration_switch": 4, "thread_handover_points_in_sync_builds": "seeded per gradual op"},
-        "builds": ["default", "raw_strains", "sync", "raw_strains,sync"],
+        "faults_fired": {"build_configuration_switch": len(BUILDS), "thread_handover_points_in_sync_builds": "seeded per gradual op"},
+        "builds": [f"{b} = features [{FEATURES[b]}], profile {'plain (no debug assertions / overflow checks)' if 'plain' in b else 'checked'}" for b in BUILDS],
         "disagreeing_runs": {k: len(v) for k, v in mismatched.items()},
         "components": H.COMPONENTS,
     }
     H.write_evidence("C10", tier, "exploration", cov, wall, len(new), H.ASSUME + ["the four binaries differ only in cargo features (checked: each reports its feature set)"])
-    print(f"C10 {tier}: {len(by_build['default'])} runs x 4 builds, {len(sigs)} distinct histories, {len(new)} new violation classes, {wall:.1f}s")
+    print(f"C10 {tier}: {len(by_build[REF])} runs x {len(BUILDS)} builds, {len(sigs)} distinct histories, {len(new)} new violation classes, {wall:.1f}s")
     return rc
 
 
 def replay_file(path):
     rec = json.load(open(path))
-    b1, b2 = rec.get("builds", ["default", "raw"])
+    b1, b2 = rec.get("builds", [REF, "raw-plain"])
     for b in (b1, b2):
         H.build(b)
     if rec.get("case") is None:
